@@ -175,7 +175,7 @@ class MLLPWorld:
         seed = self.seed if self.seed is not None else case.get('seed', 0)
         rng = K.derive_rng(seed, 'schedule')
         k = K.Kernel(schedule=sched, sched_rng=rng, mean_budget=cfg.get('mean_budget', 200),
-                     touch_p=cfg.get('touch_p', 0.0), max_decisions=cfg.get('max_decisions', 400000))
+                     touch_p=cfg.get('touch_p', 0.0), max_decisions=cfg.get('max_decisions', 400000), max_lines=cfg.get('max_lines', 2_000_000))
         self.k = k
         k.stall_p = cfg.get('stall_p', 0.0) if sched is None else 0.0
         k.stall_rng = K.derive_rng(seed, 'stall')
